@@ -44,6 +44,11 @@ Definition mkL (a b c : list (str * str)) (j : list (val * str)) : lib :=
   {| strip_tags_fn := tbl a; html_unescape_fn := tbl b; unquote_fn := tbl c;
      json_fn := fun v => jassoc v j;
      fix_truncate_clamp := @TRUNC@; fix_rpartition_found := @RPART@ |}.
+Fixpoint dtbl (t : list ((str * str) * option str)) (d f : str) : option str :=
+  match t with
+  | [] => None
+  | ((d', f'), r) :: t' => if str_eqb d d' && str_eqb f f' then r else dtbl t' d f
+  end.
 Definition rv_eqb := res_eqb_nopos val_eqb.
 Definition rs_eqb := res_eqb_nopos str_eqb.
 Definition typed (L : lib) (e : left) (ch : list lfilter) : res val :=
@@ -807,7 +812,7 @@ def expression_level(chk: C.Check, r, n_random: int, max_len: int, budget_numera
     cases: list[tuple[tuple, list[tuple]]] = list(CORPUS)
     fixed = fixed_cases()
     if chk.tier == "quick":
-        fixed = [c for i, c in enumerate(fixed) if r.random() < 0.30]
+        fixed = [c for i, c in enumerate(fixed) if r.random() < 0.22]
     cases += fixed
     for _ in range(n_random):
         plain = r.random() < 0.6
@@ -932,6 +937,55 @@ def oracle_only_chains(chk: C.Check, r, n: int) -> dict[str, Any]:  # noqa: ANN0
     return {"rendered": done, "nontrivial": nontrivial}
 
 
+DATE_INPUTS = ["2020-01-02", "2001-12-31 10:20:30", "March 3, 1999", "not a date <b>", "", "<>&'\"", "1577923200", "12"]
+DATE_FORMATS = [("lit", "%Y-%m-%d"), ("lit", "<b>%Y</b>"), ("lit", "%d & %H:%M"), ("lit", "100%%"), ("lit", ""),
+                ("data", "<b>%Y"), ("data", "%H:%M & %d '%y\""), ("data", ""), ("data", "%Y-%m-%d")]
+
+
+def date_cases() -> list[dict[str, Any]]:
+    """Tie of Markup.date_filter: the result of `date` is Markup exactly when the
+    format is Markup; an unparseable input comes back unchanged as a plain str.
+    The date library itself (dateutil parse + strftime) is the model's
+    `strftime` parameter, tabulated here by calling the library directly."""
+    import datetime
+
+    from dateutil import parser as dparser
+    from liquid2 import RenderContext
+    items = []
+    for dat in DATE_INPUTS:
+        for kind, fmt in DATE_FORMATS:
+            if dat.isdigit():
+                lib: str | None = datetime.datetime.fromtimestamp(int(dat)).strftime(fmt)
+            else:
+                try:
+                    lib = dparser.parse(dat).strftime(fmt)
+                except (dparser.ParserError, OverflowError):
+                    lib = None
+            data: dict[str, Any] = {"d": dat}
+            if kind == "data":
+                data["f"] = fmt
+                src = "{{ d | date: f }}"
+            else:
+                src = "{{ d | date: " + Src.quote(fmt) + " }}"
+            tmpl = env().from_string(src)
+            try:
+                ctx = RenderContext(tmpl, global_data=tmpl.make_globals(dict(data)))
+                ty = f"(Ok {c_val(enc(tmpl.nodes[0].expression.evaluate(ctx)))})"
+            except Exception as e:  # noqa: BLE001
+                ty = exc_term(e)
+            try:
+                tx = f"(Ok {C.cstr(tmpl.render(**data))})"
+            except Exception as e:  # noqa: BLE001
+                tx = exc_term(e)
+            tab = C.clist([C.cpair(C.cpair(C.cstr(dat), C.cstr(fmt)), C.copt(None if lib is None else C.cstr(lib), "str"))],
+                          "((str * str) * option str)")
+            m = f"(date_filter (dtbl {tab}) {C.cstr(dat)} ({C.cbool(kind == 'lit')}, {C.cstr(fmt)}))"
+            items.append({"case": f"(rv_eqb (Ok (vstr {m})) {ty} && rs_eqb (Ok (tls_ae (vstr {m}))) {tx})",
+                          "model": f"vstr {m}",
+                          "replay": {"src": src, "data": data, "library_strftime": lib, "typed": ty, "text": tx}})
+    return items
+
+
 DATE_WITNESS = {
     "first": {"src": "{{ d | date: '<b>%Y' }}", "data": {"d": "2020-01-02"}},
     "second": {"src": "{{ d | date: f }}", "data": {"d": "2020-01-02", "f": "<b>%Y"}},
@@ -939,9 +993,10 @@ DATE_WITNESS = {
 
 
 def date_cache_witness(chk: C.Check) -> None:
-    """Known finding (DESIGN §10 row 32): the lru_cache around `date` returns the
-    Markup computed for a literal format to a later render whose equal format
-    string is data."""
+    """DESIGN §10 row 32 (fixed in /repo by c40f103, which removed the cache): an
+    lru_cache around `date` returns the Markup computed for a literal format to
+    a later render whose equal format string is data.  Re-run on every run: a
+    reintroduction is reported (a VIOLATION once the finding is listed as fixed)."""
     from liquid2 import Environment
     e = Environment(auto_escape=True)
     try:
@@ -1018,14 +1073,15 @@ def main(chk: C.Check, build: C.Build) -> None:
     thorough = chk.tier == "thorough"
     r = C.rng("c04")
 
-    ex = expression_level(chk, r, n_random=1500 if not thorough else 14000,
+    ex = expression_level(chk, r, n_random=1000 if not thorough else 14000,
                           max_len=4 if not thorough else 6,
                           budget_numerals=700_000 if not thorough else 6_000_000)
     from . import c04_programs as P
-    pr = P.program_level(chk, C.rng("c04", "programs"), 500 if not thorough else 6000)
+    pr = P.program_level(chk, C.rng("c04", "programs"), 600 if not thorough else 6000)
     oo = oracle_only_chains(chk, C.rng("c04", "unmodelled"), 800 if not thorough else 8000)
     date_cache_witness(chk)
 
+    ex["items"] += date_cases()
     shard = max(100, min(400, -(-len(ex["items"]) // C.JOBS)))   # one wave of coqc processes when possible
     correspond_retry(chk, "c04", IMPORTS, defs(), ex["items"], what="Markup.eval_chain/output", shard=shard)
     chk.coverage["code_version"] = code_version()
@@ -1036,7 +1092,7 @@ def main(chk: C.Check, build: C.Build) -> None:
         "evaluations": st["cases"] + pr["programs"] + oo["rendered"],
         "distinct_nontrivial": len(ex["nontrivial"]) + len(pr["nontrivial"]) + len(oo["nontrivial"]),
         "rule": ("expression level: the recorded corpus, a fixed sweep (every modelled filter x boundary left values x boundary "
-                 "arguments; quick: a seeded 30% of it) and seeded random chains of length <= "
+                 "arguments; quick: a seeded 22% of it) and seeded random chains of length <= "
                  f"{4 if not thorough else 6} over the Markup-aware filters with literal and data arguments, applied to data strings over "
                  "{< > & ' \" a} mixed with entity/percent/newline fragments, nested lists, ints, nil, bools, literals, template strings and "
                  "captures; each is run on the real engine (typed value of FilteredExpression.evaluate + Template.render) and in the Coq model. "
@@ -1060,5 +1116,6 @@ def main(chk: C.Check, build: C.Build) -> None:
         "data are str/int/bool/None/lists: objects with __html__, Markup data and the `safe` filter are excluded by the property",
         "ints are shorter than CPython's int->str digit limit",
         "tags other than output statements/capture/template strings are covered by the program-level oracle only (Tier 1)",
-        "the process-wide lru_cache of `date` is outside the single-render theorem (known finding date-lru-cache-returns-markup)",
+        "date: dateutil parsing + strftime are the model's `strftime` parameter (c04_date_preserves_safe_inv assumes strftime maps an "
+        "untainted format to an untainted text); the cross-render witness of the removed lru_cache is re-run every time",
     ]
